@@ -10,6 +10,10 @@ Reads
       runs the job on `response.planned` (the S20 fix: the model's `astep` is the fixed scheduler)
   crates/ripd/src/continuity_stream_cache.rs : MAX_BACKSCAN_EVENTS of latest_compaction_checkpoint_before_or_at_seq_v1
       and that the function returns Err when the bounded scan is not `complete` (the S19 fix)
+  both: the five scans over checkpoint frames (manual base, cut_points truth fallback, status fallback, job base truth
+      scan, sidecar look-up) break a to_seq tie by the greater frame seq ("the latest such frame winning")
+  crates/ripd/src/compaction_auto_summary.rs : MAX_HIGHLIGHTS and the `.take(N)` of render_actor_counts (what a summary
+      records of its delta: the model's k_highlights / k_actors_shown)
 Emits coq/Gen/CompactionConsts.v: gen_consts : consts, gen_ok_compaction_consts : bool and the obligations
 gen_compaction_consts_ok (every construct found, lo <= hi, defaults inside the clamps) and gen_consts_are_real
 (gen_consts = real_consts, the value the case files evaluate the model at).  The C09 theorems hold for every
@@ -150,6 +154,41 @@ def main():
         ok = False
         notes.append("schedule: `let planned = spawned.planned.clone();` between spawn_job and the scheduled decision (adopts=%s), job run on &response.planned (%s) not found" % (adopts, runs_resp))
 
+    # "the latest such frame (by stream order) winning": every scan over checkpoint frames breaks a to_seq tie by the
+    # greater frame seq (the model's ck_better / best_lt_truth); one occurrence per scan
+    ties = [
+        ("compaction_checkpoint_cumulative_v1", co, r"\*checkpoint_to_seq\s*==\s*best_checkpoint_to_seq\s*&&\s*event\.seq\s*>\s*best_checkpoint_event_seq"),
+        ("compaction_cut_points_v1", co, r"\*checkpoint_to_seq\s*==\s*current_to_seq\s*&&\s*\*checkpoint_seq\s*>\s*best_checkpoint_seq"),
+        ("compaction_status_v1", co, r"\*to_seq\s*==\s*best_to_seq\s*&&\s*event\.seq\s*>\s*best_event_seq"),
+        ("compaction_auto_run_spawned_job_v1", co, r"\*checkpoint_to_seq\s*==\s*best_to_seq\s*&&\s*event\.seq\s*>\s*best_event_seq"),
+        ("latest_compaction_checkpoint_before_or_at_seq_v1", sc, r"\*to_seq\s*==\s*current_to_seq\s*&&\s*event\.seq\s*>\s*current\.seq"),
+    ]
+    tie_latest = True
+    for fname, src, rx in ties:
+        body = fn_body(src, fname)
+        k = len(re.findall(rx, body)) if body is not None else -1
+        if k != 1:
+            tie_latest = False
+            ok = False
+            notes.append("%s: expected one to_seq-tie clause preferring the greater frame seq, found %d" % (fname, k))
+
+    # what an auto summary records of its delta (the model's k_highlights / k_actors_shown)
+    su = rd("crates/ripd/src/compaction_auto_summary.rs")
+    hi, shown = 0, 0
+    m = re.search(r"const\s+MAX_HIGHLIGHTS\s*:\s*usize\s*=\s*([0-9_]+)\s*;", su)
+    if m:
+        hi = num(m.group(1))
+    else:
+        ok = False
+        notes.append("compaction_auto_summary.rs: MAX_HIGHLIGHTS not found")
+    ra = fn_body(su, "render_actor_counts")
+    m = re.findall(r"counts\s*\.iter\(\)\s*\.take\(\s*([0-9_]+)\s*\)", ra or "")
+    if len(m) == 1:
+        shown = num(m[0])
+    else:
+        ok = False
+        notes.append("render_actor_counts: counts.iter().take(N) not found")
+
     os.makedirs(a.out, exist_ok=True)
     with open(os.path.join(a.out, "CompactionConsts.v"), "w") as f:
         f.write("(* GENERATED by tools/gen/compaction_consts.py from crates/ripd/src/{continuities,continuity_stream_cache}.rs — do not edit *)\n")
@@ -159,6 +198,8 @@ def main():
         f.write("Definition gen_ok_compaction_consts : bool := %s.\n" % ("true" if ok else "false"))
         f.write("Definition gen_ck_scan_guarded : bool := %s.\n" % ("true" if guarded else "false"))
         f.write("Definition gen_sched_adopts_spawned_plan : bool := %s.\n" % ("true" if (adopts and runs_resp) else "false"))
+        f.write("Definition gen_ck_tie_break_latest : bool := %s.\n" % ("true" if tie_latest else "false"))
+        f.write("Definition gen_k_highlights : N := %d.\nDefinition gen_k_actors_shown : nat := %d.\n" % (hi, shown))
         f.write("Definition gen_consts : consts :=\n  {| k_default_stride := %d; k_limit_lo := %d; k_limit_hi := %d; k_plan_limit := %d;\n"
                 "     k_maxnew_lo := %d; k_maxnew_hi := %d; k_ck_window := %d; k_inflight_window := %d |}.\n\n"
                 % (vals["stride"], vals["lim_lo"], vals["lim_hi"], vals["plan"], vals["mx_lo"], vals["mx_hi"], vals["ckw"], vals["infl"]))
@@ -169,6 +210,9 @@ def main():
                 "  (k_limit_lo k <=? k_limit_hi k) && (k_maxnew_lo k <=? k_maxnew_hi k) && (1 <=? k_limit_lo k) && (1 <=? k_maxnew_lo k)\n"
                 "  && negb (k_default_stride k =? 0) && (k_plan_limit k <=? k_limit_hi k) && (k_limit_lo k <=? k_plan_limit k).\n\n")
         f.write("Lemma gen_compaction_consts_ok : (gen_ok_compaction_consts && gen_ck_scan_guarded && gen_sched_adopts_spawned_plan && consts_wf gen_consts) = true.\n"
+                "Proof. vm_compute. reflexivity. Qed.\n")
+        f.write("Lemma gen_ck_tie_break_latest_ok : gen_ck_tie_break_latest = true.\nProof. vm_compute. reflexivity. Qed.\n")
+        f.write("Lemma gen_summary_consts_are_model : ((gen_k_highlights =? k_highlights) && Nat.eqb gen_k_actors_shown k_actors_shown) = true.\n"
                 "Proof. vm_compute. reflexivity. Qed.\n")
         f.write("Lemma gen_consts_are_real : consts_eqb gen_consts real_consts = true.\nProof. vm_compute. reflexivity. Qed.\n")
     print("compaction_consts: ok=%s %s %s" % (ok, vals, "; ".join(notes)))
